@@ -5,7 +5,7 @@
 From Coq Require Import PrimFloat QArith Qabs Sorting.Permutation.
 From EsVerif.Common Require Import Base.
 From EsVerif.C05 Require Import Model Spec.
-From EsVerif.C14 Require Import Model Spec NumProofs StatProofs Proofs.
+From EsVerif.C14 Require Import Model Spec NumProofs StatProofs Proofs NumBinProofs.
 
 (* ------------------------------------------------------------------ members of a bin *)
 (* binsize/nbin mode: slice i of the reverse indices computed by the model holds exactly the
@@ -85,6 +85,28 @@ Theorem C14_chunks_sizes : forall fuel k merge l, (1 <= k)%nat -> (length l <= f
     else (1 <= length b)%nat /\ (if merge then (length b < 2 * k)%nat else (length b <= k)%nat).
 Proof. intros fuel k merge l Hk Hl. apply chunks_sizes; assumption. Qed.
 
+(* The pass of _hist_by_num on the positions 0..n-1 of the selected sorted data (bin number
+   position / nperbin, nbin = (n-1)/nperbin + 1, through C05's single pass): bin i holds exactly
+   the consecutive positions i*k .. min((i+1)*k, n)-1, every bin but the last exactly k of them,
+   the last 1..k, nothing uncounted.  PARTIAL: the two later steps of the model (mapping the
+   slices to indices of the original array with low/high, and _merge_last) are not covered by a
+   for-all theorem; they are tied by the correspondence run, by num_check on every real output
+   and by the exhaustive small-scope sweep Exec.num_sweep. *)
+Theorem C14_nperbin_pass_partial : forall k n hist rev0, 1 <= k -> 1 <= n ->
+  chist (fun j => j / k) ((n - 1) / k + 1) (zseq 0 (Z.to_nat n)) = (hist, rev0) ->
+  let nbin := (n - 1) / k + 1 in
+  Z.of_nat (length hist) = nbin
+  /\ Z.of_nat (length rev0) = n + nbin + 1
+  /\ skipn (Z.to_nat (nbin + 1)) rev0 = zseq 0 (Z.to_nat n)
+  /\ zget rev0 nbin = Z.of_nat (length rev0)
+  /\ forall i, 0 <= i < nbin ->
+       nbin + 1 <= zget rev0 i <= zget rev0 (i + 1)
+       /\ slice rev0 i = zseq (i * k) (Z.to_nat (Z.min n ((i + 1) * k) - i * k))
+       /\ zget hist i = Z.min n ((i + 1) * k) - i * k
+       /\ 1 <= zget hist i <= k
+       /\ (i + 1 < nbin -> zget hist i = k).
+Proof. exact nperbin_pass_slices. Qed.
+
 (* ------------------------------------------------------------------ the repaired defect *)
 (* As found (util.py:410) a single-member bin stored x*w in whist: for x = 0.5, w = 2 the as-found
    rule accepts whist = 1.0, which is not the summed weight 2. *)
@@ -102,7 +124,7 @@ Theorem C14_werr_unpatched_refuted :
             /\ ~ Meets f (nth 2 (wblock_direct [5 # 2] [4 # 1]%Q) TAny).
 Proof.
   exists 2.5%float. split; [vm_compute; reflexivity|].
-  intros [_ H]. vm_compute in H. destruct H as [_ [_ [_ H]]]. apply H. reflexivity.
+  intros [_ H]. vm_compute in H. destruct H as [_ [_ [[H|H] _]]]; apply H; reflexivity.
 Qed.
 
 (* ------------------------------------------------------------------ non-vacuity *)
